@@ -412,6 +412,19 @@ def valid_oracle(case):
     loaded = _check_valid_file(case, f, 'document', case['db'], d, out)
     if loaded is None:
         return out
+    # the same document with a reference to an entity the file does not declare inside a label:
+    # the DOCTYPE names an external DTD nobody reads, so the file is still well-formed and the
+    # parser skips the reference - the scan has to agree with what load() then reports
+    m = re.search(rb'<Lexicon(?:Extension)?\b[^>]*?\blabel\s*=\s*["\']', data)
+    if m and len(data) % 2 == 0:
+        h = d / 'entity.xml'
+        h.write_bytes(data[:m.end()] + b'&wnv.undeclared;' + data[m.end():])
+        try:
+            lmf.load(h, progress_handler=None)
+        except Exception:  # noqa: BLE001
+            pass        # (a reader may also reject it; then nothing is compared)
+        else:
+            _check_valid_file(case, h, 'undeclared-entity', case['db'], d, out)
     # the output of dump() is a further valid family
     g = d / 'dumped.xml'
     lmf.dump(copy.deepcopy(loaded), g)
